@@ -34,7 +34,7 @@ def topo(defs, subset, key=None):
     done = []
     rem = [x for x in order if x in subset]
     while rem:
-        ready = [x for x in rem if all(y in done for y in by[x]["deps"])]
+        ready = [x for x in rem if all(y in done for y in by[x]["deps"]) and all(y in done for y in by[x].get("after", []) if y in subset)]
         if not ready:
             raise Infra("cyclic package")
         ready.sort(key=key or (lambda x: order.index(x)))
@@ -238,7 +238,7 @@ def run(ctx):
     nsim = 1200 if ctx.tier == "thorough" else 40
     for pi, pkg in enumerate(c07pkg.packages(ctx.tier)):
         core.write_ndjson(os.path.join(sd, "pkg.ndjson"),
-                          [{"id": d["id"], "deps": d["deps"], "tva": d["tva"], "fwd": d["fwd"], "istype": d["istype"], "locals": d["locals"]} for d in pkg["defs"]])
+                          [{"id": d["id"], "deps": d["deps"] + d.get("after", []), "tva": d["tva"], "fwd": d["fwd"], "istype": d["istype"], "locals": d["locals"]} for d in pkg["defs"]])
         r = ctx.tlc("FoParseStateHist", "FoParseStateHist.cfg", workers=1, simulate="num=%d" % nsim, depth=len(pkg["defs"]) + 6,
                     seed=ctx.seed * 10 + pi, timeout=1800)
         sims = [json.loads(json.loads('"' + m.group(1) + '"')) for m in re.finditer(r'<<"HIST", "(.*)">>', r["out"])]
